@@ -34,17 +34,20 @@ type histParams struct {
 	MaxDepth int
 	// UpstreamCookie: the upstream sets a cookie of its own on every response (most applications do)
 	UpstreamCookie bool
-	// LongTokens: the authenticator hands out tokens as long as real signed tokens, so that the sealed
-	// session cookie is larger than 4096 bytes
+	// LongTokens: at a refresh the authenticator hands out an access token as long as a real signed token with
+	// many claims, so that from then on the sealed session cookie is larger than 4096 bytes
 	LongTokens bool
 }
 
 // histTokenSuffix is appended to every token of a LongTokens family.
-func histTokenSuffix(p histParams) string {
+func histTokenSuffix(p histParams, kind string) string {
 	if !p.LongTokens {
 		return ""
 	}
-	return "-" + c03LongToken("hist", 2400)
+	if kind != "refreshed" {
+		return "" // (the session starts small and grows past 4096 bytes with the first refreshed token)
+	}
+	return "-" + c03LongToken("hist-"+kind, 4400)
 }
 
 type histState struct {
@@ -144,7 +147,7 @@ type histResult struct {
 }
 
 func histAlphabet(p histParams) authAlphabet {
-	okRefresh := ans(201, fmt.Sprintf(`{"access_token":"access-token-gen%s","expires_in":%d}`, histTokenSuffix(p), p.R))
+	okRefresh := ans(201, fmt.Sprintf(`{"access_token":"access-token-gen%s","expires_in":%d}`, histTokenSuffix(p, "refreshed"), p.R))
 	member := ans(200, `{"email":"x","groups":["eng"]}`)
 	removed := ans(200, `{"email":"x","groups":[]}`)
 	if p.Alphabet == "c04" {
@@ -200,7 +203,7 @@ func (h *histRunner) login() (*histState, string) {
 	e.Auth.Answer = func(c *harness.AuthCall) harness.AuthAnswer {
 		switch c.Endpoint {
 		case "redeem":
-			return ans(200, fmt.Sprintf(`{"access_token":"access-token-login%s","refresh_token":"refresh-token%s","expires_in":%d,"email":%q}`, histTokenSuffix(h.p), histTokenSuffix(h.p), h.p.R, h.p.User.Email))
+			return ans(200, fmt.Sprintf(`{"access_token":"access-token-login%s","refresh_token":"refresh-token%s","expires_in":%d,"email":%q}`, histTokenSuffix(h.p, "access"), histTokenSuffix(h.p, "refresh"), h.p.R, h.p.User.Email))
 		case "profile":
 			return ans(200, harness.JSON(map[string]interface{}{"email": h.p.User.Email, "groups": h.p.User.Groups}))
 		}
@@ -226,6 +229,7 @@ func (h *histRunner) login() (*histState, string) {
 	if s == nil {
 		panic(explore.HarnessError{Msg: "login: session cookie does not open"})
 	}
+
 	st := &histState{Now: 0, Cookie: s, B: h.p.L, TokenExp: h.p.R, NextDue: min64(h.p.V, h.p.R), Outage: -1}
 	return st, ck.Value
 }
@@ -274,6 +278,9 @@ func (h *histRunner) step(st *histState, gap int64, x *explore.Exec, cookieVal s
 		} else {
 			reissued = e.Open(ck.Value)
 			next.Cookie = reissued
+			if p.LongTokens && reissued != nil && strings.HasPrefix(reissued.AccessToken, "access-token-gen") && len(ck.String()) <= 4096 {
+				panic(explore.HarnessError{Msg: fmt.Sprintf("the long-tokens family is meant to produce a session cookie beyond 4096 bytes after a refresh, this one has %d", len(ck.String()))})
+			}
 			if reissued == nil {
 				obs.Cookie = "reissued-unopenable"
 			} else {
